@@ -2996,17 +2996,17 @@ let rec clear o = function
 | BOption (idx, ct) ->
   bind (gb_clear o idx) (fun idx' ->
     bind (clear o ct) (fun ct' -> Ok (BOption (idx', ct'))))
-| BList (_, ct, begun) ->
+| BList (_, ct, _) ->
   bind (offsets0 o) (fun offs' ->
-    bind (clear o ct) (fun ct' -> Ok (BList (offs', ct', begun))))
+    bind (clear o ct) (fun ct' -> Ok (BList (offs', ct', false))))
 | BRecord (_, _, _, _, _, _, _, _) ->
   Ok (BRecord ([], [], [], true, (Zneg XH), false, (Zneg XH), Z0))
 | BTuple (_, _, _, _) -> Ok (BTuple ([], (Zneg XH), false, (Zneg XH)))
-| BUnion (tags, idx, cs, cur) ->
+| BUnion (tags, idx, cs, _) ->
   bind (gb_clear o tags) (fun tags' ->
     bind (gb_clear o idx) (fun idx' ->
       bind (mapMs (clear o) cs) (fun cs' -> Ok (BUnion (tags', idx', cs',
-        cur)))))
+        (Zneg XH))))))
 
 (** val numpy1 : dtype -> gb -> content **)
 
